@@ -5,6 +5,7 @@ package main
 // identity that holds unconditionally holds on every path.
 
 import (
+	"syscall"
 	"context"
 	"fmt"
 	"os"
@@ -109,6 +110,8 @@ func sympyProve(goal *Term, timeout time.Duration, workfile string) (bool, strin
 		lines = append(lines, "eqs.append(("+a+", "+b+"))")
 	}
 	var sb strings.Builder
+	// the script ends itself should the checker be killed while it runs
+	sb.WriteString(fmt.Sprintf("import signal\nsignal.alarm(%d)\n", int(timeout.Seconds())+5))
 	sb.WriteString("import sympy as sp\nimport sys\n")
 	for s := range syms {
 		if strings.HasPrefix(s, "F:") {
@@ -139,7 +142,18 @@ if ok:
 	ctx, cancel := context.WithTimeout(context.Background(), timeout)
 	defer cancel()
 	start := time.Now()
-	out, _ := exec.CommandContext(ctx, "python3-vt", workfile).CombinedOutput()
+	// run the interpreter itself (python3-vt is a shell wrapper whose child would survive the kill),
+	// in its own process group, with an address-space limit: sympy can grow without bound on nested radicals
+	cmd := exec.CommandContext(ctx, "/bin/sh", "-c", "ulimit -v 3000000; exec /opt/veriftools/pyvenv/bin/python \"$0\"", workfile)
+	cmd.SysProcAttr = &syscall.SysProcAttr{Setpgid: true}
+	cmd.Cancel = func() error {
+		if cmd.Process != nil {
+			syscall.Kill(-cmd.Process.Pid, syscall.SIGKILL)
+		}
+		return nil
+	}
+	cmd.WaitDelay = 2 * time.Second
+	out, _ := cmd.CombinedOutput()
 	el := time.Since(start).Seconds()
 	s := strings.TrimSpace(string(out))
 	return strings.HasPrefix(s, "unsat"), s, el
